@@ -390,6 +390,8 @@ def run_cases(variant, cases, workdir, label="run", nshards=None, case_timeout=2
             r = sh.results.get(local)
             results[k] = r if r is not None else {"missing": True}
         san.extend(sh.results.get("_sanitizer", []))
+    if MIRROR is not None and variant == "dbg" and not label.endswith("-mirror") and not cov_dir:
+        _mirror(cases, results, workdir, label, case_timeout, stack_mib, extra_env)
     slow = [k for k, r in enumerate(results) if isinstance(r, dict) and "timeout" in r]
     if slow and confirm_timeouts:
         # a wall-clock timeout on a loaded machine is not a verdict: every timed-out case is run
@@ -404,6 +406,83 @@ def run_cases(variant, cases, workdir, label="run", nshards=None, case_timeout=2
         san.extend(m2["sanitizer_reports"])
         launches += m2["launches"]
     return results, {"sanitizer_reports": san, "launches": launches, "dir": d, "timeouts_rechecked": len(slow)}
+
+
+# ---- release-build mirror (differential monitor) -----------------------------------------------------------------
+# The value oracles judge what the DEBUG build computes. Code may behave differently when built for release
+# (`cfg!(debug_assertions)`, `debug_assert!` guarding a fast path, wrapping instead of checked arithmetic, an optimiser-
+# exposed dependence on evaluation order or uninitialised data): for the checks that ask for it (`check` sets MIRROR), every
+# k-th batch of every debug run is replayed on the release build and the two records must be identical. A record that
+# holds a panic, a crash or a timeout on either side is left out (totality on both builds is C05 / C12 / C19's subject).
+MIRROR = None  # {"stride": k, "max_cases": n}
+MIRROR_DIFFS = []  # (label, case, debug record, release record, first differing path)
+MIRROR_STATS = {"cases_mirrored": 0, "records_compared": 0, "skipped_crash_or_panic": 0}
+_VOLATILE = ("ms", "wall", "wall_s", "elapsed_ms", "pid")
+
+
+def _strip_volatile(x):
+    if isinstance(x, dict):
+        return {k: _strip_volatile(v) for k, v in x.items() if k not in _VOLATILE}
+    if isinstance(x, list):
+        return [_strip_volatile(v) for v in x]
+    return x
+
+
+def _has_fault(x):
+    if isinstance(x, dict):
+        return any(k in ("panic", "crash", "timeout", "missing", "harness_error") for k in x) or any(_has_fault(v) for v in x.values())
+    if isinstance(x, list):
+        return any(_has_fault(v) for v in x)
+    return False
+
+
+def _first_diff(a, b, path=""):
+    if type(a) != type(b):
+        return path or "."
+    if isinstance(a, dict):
+        for k in sorted(set(a) | set(b)):
+            if k not in a or k not in b:
+                return "%s/%s" % (path, k)
+            d = _first_diff(a[k], b[k], "%s/%s" % (path, k))
+            if d:
+                return d
+        return None
+    if isinstance(a, list):
+        if len(a) != len(b):
+            return path + "/#len"
+        for i, (x, y) in enumerate(zip(a, b)):
+            d = _first_diff(x, y, "%s/%d" % (path, i))
+            if d:
+                return d
+        return None
+    return None if a == b else (path or ".")
+
+
+def _mirror(cases, results, workdir, label, case_timeout, stack_mib, extra_env):
+    stride = max(1, int(MIRROR.get("stride", 5)))
+    offset = int(MIRROR.get("offset", 0)) % stride
+    idx = [k for k in range(len(cases)) if k % stride == offset and isinstance(results[k], dict) and not _has_fault(results[k])]
+    idx = idx[: int(MIRROR.get("max_cases", 400))]
+    if not idx:
+        return
+    try:
+        build("rel")
+    except Inconclusive:
+        MIRROR_STATS["release_build_unavailable"] = True
+        return
+    again, _ = run_cases("rel", [cases[k] for k in idx], workdir, label=label + "-mirror", case_timeout=max(case_timeout, 60.0), stack_mib=stack_mib, extra_env=extra_env)
+    MIRROR_STATS["cases_mirrored"] += len(idx)
+    for k, r in zip(idx, again):
+        if not isinstance(r, dict) or _has_fault(r):
+            MIRROR_STATS["skipped_crash_or_panic"] += 1
+            continue
+        a, b = _strip_volatile(results[k]), _strip_volatile(r)
+        a.pop("i", None)  # position of the case within its shard
+        b.pop("i", None)
+        MIRROR_STATS["records_compared"] += 1
+        d = _first_diff(a, b)
+        if d and len(MIRROR_DIFFS) < 200:
+            MIRROR_DIFFS.append((label, cases[k], a, b, d))
 
 
 def run_single(variant, case, workdir, label="single", case_timeout=300.0, stack_mib=None):
